@@ -26,6 +26,19 @@ func (w *World) pkgCallees(fn *ssa.Function) []*ssa.Function {
 				seen[c] = true
 				out = append(out, c)
 			}
+			// a bound-method value or a thunk (p.parseStep handed around as a func
+			// value): the method it stands for
+			if c.Synthetic != "" && c != fn {
+				if cn := w.CG.Nodes[c]; cn != nil {
+					for _, e2 := range cn.Out {
+						d := e2.Callee.Func
+						if w.inPkg(d) && !seen[d] && d.Synthetic == "" {
+							seen[d] = true
+							out = append(out, d)
+						}
+					}
+				}
+			}
 		}
 	}
 	sort.Slice(out, func(i, j int) bool { return fnName(out[i]) < fnName(out[j]) })
